@@ -280,7 +280,7 @@ def pyCallGlob (st : PState) (m n : Bytes) (args : List PyVal) : PM (PState × P
     | .ok v => .ok (st, v)
     | .error e => .error e
   else if m == pyExecModule st.proto && n == sb "bytes" then
-    .ok (st, if args.isEmpty then .bytes [] else .call (.glob (sb "builtins") (sb "bytes")) args)
+    .ok (st, if args.isEmpty then .bytes [] else .call (.glob m n) args)
   else if m == pyExecModule st.proto && n == sb "bytearray" then
     match pyBytearrayOf args with
     | .ok d => .ok (palloc st (.bytearray d))
